@@ -119,7 +119,8 @@ def key_from(prop, what, view, g, cls, variant, vec=None):
         return "C02:%s.%s" % (view, g)                          # getter
     if prop == "C16":
         if what == "allocs" and vec is not None:
-            return "C16:allocs:payload%s:%s" % (vec.get("x", {}).get("o", {}).get("id", "?"), vec.get("status", "?"))
+            x = vec.get("x", {})
+            return "C16:allocs:payload%s:%s:%s:log-%s" % (x.get("o", {}).get("id", "?"), vec.get("status", "?"), x.get("quiet", "none"), x.get("log", "error"))
         return "C16:%s:%s.%s" % (what, view, g)
     return "%s:%s:%s.%s" % (prop, what, view, g)
 
@@ -325,7 +326,11 @@ def describe(r, vec):
 def short(vec):
     if vec["fam"] in ("parse", "alloc"):
         s = vec["s"]
-        keep = {k: v for k, v in s.items() if k not in ("fam",) and v not in (0, "na")}
+        keep = {k: v for k, v in s.items() if k not in ("fam",) and v not in (0, "na", "none")}
+        if vec.get("cfg", "default") != "default":
+            keep["session"] = vec["cfg"]
+        if vec["fam"] == "alloc":
+            keep.update({"status": vec.get("status"), "quiet": vec.get("x", {}).get("quiet"), "log": vec.get("x", {}).get("log")})
         return json.dumps(keep, sort_keys=True)
     c = vec.get("c", {})
     return json.dumps({k: c[k] for k in c if k in ("view", "len", "set", "raw", "g", "pattern", "bytes")}, sort_keys=True)
